@@ -39,7 +39,12 @@ theorem Frame_park (now : Nat) (t : Task) (c : Cmd) (rest : List Cmd) (hl : loca
     Task.Frame t (park now t c rest) := by
   cases c <;> simp only [park]
   case sleep d => constructor <;> simp [Task.held]
-  case raise => exact Frame_abort t _
+  case raise b => exact Frame_abort t _
+  case commit =>
+    split
+    · constructor <;> simp [Task.held]
+    · split <;> constructor <;> simp [Task.held]
+  case rollback => constructor <;> simp [Task.held]
   case set k v => split; exact Frame_lockOrFail _ _ _; constructor <;> simp [Task.held]
   case delete k => split; exact Frame_lockOrFail _ _ _; constructor <;> simp [Task.held]
   case incr k n =>
@@ -107,6 +112,16 @@ theorem localCmd_frame {t t' : Task} {c : Cmd} (hl : localCmd t c = some t') :
   case raise => simp at hl
   case nestIn f => simp at hl; subst hl; simp
   case nestOut => simp at hl; subst hl; simp
+  case commit =>
+    split at hl
+    · split at hl <;> simp at hl
+      subst hl; simp
+    · simp at hl; subst hl; simp
+  case rollback =>
+    split at hl
+    · split at hl <;> simp at hl
+      subst hl; simp
+    · simp at hl; subst hl; simp
 
 theorem Frame_settle (now : Nat) (prog : List Cmd) (t : Task) : Task.Frame t (settle now prog t) := by
   refine settle_ind (R := fun _ t' => t'.isTx = t.isTx ∧ t'.mode = t.mode ∧ t'.timeout = t.timeout ∧
@@ -148,6 +163,25 @@ theorem Frame_settle_setx (now : Nat) (t : Task) (k : Nat) (v : Int) (e p : Bool
   exact ⟨f.isTx.trans g.1, f.mode.trans g.2.1, f.timeout.trans g.2.2.1, f.enterAt.trans g.2.2.2.1,
     f.ctx.trans g.2.2.2.2.1, f.held.trans g.2.2.2.2.2.1⟩
 
+theorem Frame_afterMid (now : Nat) (t : Task) : Task.Frame t (afterMid now t) := by
+  unfold afterMid
+  split
+  · rename_i hl
+    have f := Frame_settle now t.prog { t with cmuts := t.cmuts ++ commitMutsOf t.ov t.del, ov := [], del := [],
+                                               cinc := t.cinc ++ t.pend, pend := [] }
+    exact ⟨f.isTx, f.mode, f.timeout, f.enterAt, f.ctx, f.held⟩
+  · constructor <;> simp [Task.held]
+
+/-- being cancelled keeps identity and held locks -/
+theorem cancel_frame (t : Task) :
+    (cancelTask t).isTx = t.isTx ∧ (cancelTask t).mode = t.mode ∧ (cancelTask t).timeout = t.timeout ∧
+    (cancelTask t).enterAt = t.enterAt ∧ (cancelTask t).ctx = t.ctx ∧ (cancelTask t).held = t.held := by
+  have f := Frame_abort t .cancelled
+  unfold cancelTask
+  split <;> first
+    | (rename_i hpc; exact ⟨f.isTx, f.mode, f.timeout, f.enterAt, f.ctx, by rw [f.held]; simp [Task.held, hpc]⟩)
+    | simp
+
 /-- waking up keeps identity and held locks -/
 theorem wake_frame (now : Nat) (t : Task) :
     (wake now t).isTx = t.isTx ∧ (wake now t).mode = t.mode ∧ (wake now t).timeout = t.timeout ∧
@@ -187,6 +221,7 @@ theorem held_inTx {t : Task} (h : t.TI) {l : LockKey} (hl : l ∈ t.held) : t.in
       have h2 := h.noctx_pc hc
       unfold Task.held at hl
       split at hl
+      · rename_i hpc; simp [hpc, PC.plainOk] at h2
       · rename_i hpc; simp [hpc, PC.plainOk] at h2
       · simp [h1] at hl
     · rfl
@@ -415,6 +450,61 @@ theorem LockInv_runTask (w : World) (tid : Nat) (hti : w.AllTI) (hi : w.LockInv)
         obtain ⟨d, e, hd⟩ := hi.owned tid l' (by simp [Task.held, hpc, hu.1, hmem])
         exact ⟨d, by rw [unlockOne_ne _ _ _ _ hne]; exact e, hd⟩
       · intro hc; exact hi.entered tid hc
+  case midDel =>
+    refine LockInv_runTask_same w tid hi ?_ ?_ ?_ ?_ ?_ <;> rw [taskStep_midDel _ _ _ _ _ hpc] <;> dsimp only
+    · split
+      · simp [Task.held, hpc]
+      · exact (Frame_afterMid _ _).held.trans (by simp [Task.held, hpc])
+    · split
+      · rfl
+      · exact (Frame_afterMid _ _).enterAt
+    · split
+      · rfl
+      · exact (Frame_afterMid _ _).timeout
+    · split
+      · rfl
+      · exact (Frame_afterMid _ _).ctx
+  case midSet =>
+    refine LockInv_runTask_same w tid hi ?_ ?_ ?_ ?_ ?_ <;> rw [taskStep_midSet _ _ _ _ _ hpc] <;> dsimp only
+    · exact (Frame_afterMid _ _).held.trans (by simp [Task.held, hpc])
+    · exact (Frame_afterMid _ _).enterAt
+    · exact (Frame_afterMid _ _).timeout
+    · exact (Frame_afterMid _ _).ctx
+  case midUnlock ls =>
+    have hu := ht.mid ls hpc
+    cases ls with
+    | nil =>
+      refine LockInv_runTask_same w tid hi ?_ ?_ ?_ ?_ ?_ <;> rw [taskStep_midUnlock_nil _ _ _ _ _ hpc] <;> dsimp only
+      · exact (Frame_settle _ _ _).held.trans (by simp [Task.held, hpc])
+      · exact (Frame_settle _ _ _).enterAt
+      · exact (Frame_settle _ _ _).timeout
+      · exact (Frame_settle _ _ _).ctx
+    | cons l rest =>
+      have hn := List.nodup_cons.mp hu.2.2.2.1
+      refine LockInv_runTask_of w tid hi ?_ ?_ ?_ <;> rw [taskStep_midUnlock_cons _ _ _ _ _ hpc] <;> dsimp only
+      · intro i hne l' hl'
+        obtain ⟨d, e, hd⟩ := hi.owned i l' hl'
+        by_cases hl0 : l' = l
+        · subst hl0; rw [unlockOne_owner _ _ _ _ e hne]
+        · exact unlockOne_ne _ _ _ _ hl0
+      · intro l' hl'
+        by_cases hr : rest = []
+        · exfalso
+          rw [if_pos hr, (Frame_settle _ _ _).held, hu.1] at hl'
+          cases hl'
+        · rw [if_neg hr] at hl' ⊢
+          have hmem : l' ∈ rest := by simpa [Task.held, hu.1] using hl'
+          have hne : l' ≠ l := fun h => hn.1 (h ▸ hmem)
+          obtain ⟨d, e, hd⟩ := hi.owned tid l' (by simp [Task.held, hpc, hu.1, hmem])
+          exact ⟨d, by rw [unlockOne_ne _ _ _ _ hne]; exact e, hd⟩
+      · intro hc
+        by_cases hr : rest = []
+        · rw [if_pos hr] at hc ⊢
+          rw [(Frame_settle _ _ _).enterAt]
+          rw [(Frame_settle _ _ _).ctx] at hc
+          exact hi.entered tid hc
+        · rw [if_neg hr] at hc ⊢
+          exact hi.entered tid hc
 
 theorem LockInv_step (w : World) (a : Act) (hti : w.AllTI) (hi : w.LockInv) (hs : w.Safe) : (w.step a).LockInv := by
   cases a with
@@ -434,6 +524,28 @@ theorem LockInv_step (w : World) (a : Act) (hti : w.AllTI) (hi : w.LockInv) (hs 
       rw [f.2.2.2.1]
       have := hi.entered i hc
       omega
+  | cancel tid =>
+    constructor
+    · intro i l hl
+      simp only [World.step] at hl ⊢
+      by_cases hit : i = tid
+      · have f := cancel_frame (w.tasks i)
+        rw [if_pos hit] at hl ⊢
+        rw [f.2.2.2.2.2] at hl
+        rw [f.2.2.1, f.2.2.2.1]
+        exact hi.owned i l hl
+      · rw [if_neg hit] at hl ⊢
+        exact hi.owned i l hl
+    · intro i hc
+      simp only [World.step] at hc ⊢
+      by_cases hit : i = tid
+      · have f := cancel_frame (w.tasks i)
+        rw [if_pos hit] at hc ⊢
+        rw [f.2.2.2.2.1] at hc
+        rw [f.2.2.2.1]
+        exact hi.entered i hc
+      · rw [if_neg hit] at hc ⊢
+        exact hi.entered i hc
 
 theorem LockInv_init (store : Store) (ts : List Task) (h : ∀ t ∈ ts, t.Fresh) : (World.init store ts).LockInv := by
   have hti := AllTI_init store ts h
